@@ -223,6 +223,18 @@ def witnesses(ctx):
             recorded = (name == 'C1' and not got) or (name == 'C2' and len(got) == 1 and abs(got[0][0] - 9.75) < 1e-9 and abs(got[0][1] - 0.5) < 1e-9)
             common.add_violation(ctx, 'atom with a coded coordinate is not read as the coordinate the code denotes', {'text': text}, exp, got,
                                  cls='coordinate_code_with_remainder_beyond_one_or_below_ten' if recorded else None)
+    # an element that occurs twice in the SFAC table (two sets of scattering factors for one element): the scattering-factor number of an
+    # atom is a position in the table as written
+    for sfac_lines, table in ((['SFAC C H FE FE O'], ['C', 'H', 'FE', 'FE', 'O']), (['SFAC C H FE', 'SFAC FE O'], ['C', 'H', 'FE', 'FE', 'O'])):
+        text = ('TITL w\nCELL 0.71073 10 11 12 90 90 90\nZERR 4 0.001 0.001 0.001 0 0 0\nLATT 1\n' + '\n'.join(sfac_lines) + '\nUNIT 4 4 1 1 2\nFVAR 1.0\n'
+                + ''.join('X%d %d 0.%d 0.2 0.3 11.0 0.04\n' % (k, k, k) for k in range(1, 6)) + 'HKLF 4\nEND\n')
+        status, inner, shx = im.read_text(text, 'quiet')
+        n += 1
+        got = [(a.name, a.sfac_num, a.element.upper()) for a in shx.atoms.all_atoms]
+        exp = [('X%d' % k, k, table[k - 1]) for k in range(1, 6)]
+        if status != 'ok' or inner or got != exp:
+            common.add_violation(ctx, 'the element of an atom is not the entry at its scattering-factor number in the SFAC table (an element listed twice)',
+                                 {'text': text}, exp, got if status == 'ok' else '%s %s' % (status, inner))
     return n
 
 
